@@ -43,7 +43,8 @@ def eq(a, b, what="", domain=None, seed=0):
         return (None, "%s: normal forms differ but no numeric witness separates them (incomplete rewriting)" % what)
     vals, av, bv = w
     return (False, "%s: got %s, expected %s" % (what, _short(a), _short(b)),
-            {"witness": {k: round(v, 6) for k, v in sorted(vals.items())}, "got": av, "expected": bv})
+            {"witness": {k: round(v, 6) for k, v in sorted(vals.items())}, "got": av, "expected": bv,
+             "key": "%s got %s" % (what, _short(a, 90))})
 
 
 def _short(r, n=160):
@@ -108,8 +109,68 @@ def hamilton_ref(p, q):
     return out
 
 
-def free_quat(prefix):
-    return sym_vec(prefix, 4, "wxyz")
+def free_quat(prefix, sub=None):
+    return sym_vec(prefix, 4, "wxyz", sub)
+
+
+def solve_single_atom(diff: Rat):
+    """if diff == c*atom + d (c, d rational constants, atom a plain symbol) return (name, -d/c)"""
+    if not P.p_is_const(diff.den):
+        diff = Rat(diff.num)
+    name, c, d = None, None, 0
+    for m, v in diff.num.items():
+        if not m:
+            d = v
+        elif len(m) == 1 and m[0][1] == 1 and P.atom(m[0][0]).kind == "sym" and name is None:
+            name, c = P.atom(m[0][0]).name, v
+        else:
+            return None
+    if name is None:
+        return None
+    return name, -d / c
+
+
+def explore_arms(body, max_arms=16):
+    """Degenerate-arm exploration.  ``body(sub, mk_interp)`` runs an obligation with the symbol substitution
+    ``sub`` (name -> Fraction) and must create its interpreters through ``mk_interp(**kw)``.  After the generic run,
+    every generic-position decision whose condition pins a single input symbol (x != 0, x == c, isclose(x, c)) is
+    revisited with that symbol set to the pinned value, recursively.  Returns list of (arm label, verdict)."""
+    results = []
+    seen = set()
+    work = [{}]
+    while work and len(results) < max_arms:
+        sub = work.pop(0)
+        key = tuple(sorted(sub.items()))
+        if key in seen:
+            continue
+        seen.add(key)
+        its = []
+
+        def mk(*a, **kw):
+            it = Interp(*a, **kw)
+            its.append(it)
+            return it
+        label = "generic" if not sub else ",".join("%s=%s" % kv for kv in sorted(sub.items()))
+        try:
+            v = body(sub, mk)
+        except Raised as e:
+            v = ("raised", e.exc_name)
+        results.append((label, v))
+        for it in its:
+            for cond, val, was_generic in it.decisions:
+                if not was_generic:
+                    continue
+                if cond.op == "nonzero":
+                    s = solve_single_atom(cond.lhs)
+                elif cond.op in ("==", "!=", "isclose"):
+                    s = solve_single_atom(cond.lhs - cond.rhs)
+                else:
+                    s = None
+                if s and s[0] not in sub:
+                    nsub = dict(sub)
+                    nsub[s[0]] = s[1]
+                    work.append(nsub)
+    return results
 
 
 def normalized(v):
@@ -122,3 +183,19 @@ def expect_raises(fn, names=("ValueError", "TypeError")):
     except Raised as e:
         return e.exc_name in names or (False, "raised %s" % e.exc_name)
     return (False, "did not raise")
+
+
+def ob_arms(chk, rule, site, law, body, max_arms=16, **kw):
+    """run ``body`` on the generic arm and on every degenerate arm it exposes; one obligation per arm"""
+    try:
+        arms = explore_arms(body, max_arms=max_arms)
+    except Exception as e:
+        chk.ob(rule, site, law, lambda: (_ for _ in ()).throw(e), **kw)
+        return
+    cons = kw.pop("construct", law)
+    for label, verdict in arms:
+        if isinstance(verdict, tuple) and verdict and verdict[0] == "raised":
+            chk.record(rule, site, "%s [arm %s]" % (law, label), detail="arm ends in raise %s (exempt)" % verdict[1])
+            continue
+        chk.ob(rule, site, "%s [arm %s]" % (law, label), lambda v=verdict: v,
+               construct=cons if label == "generic" else "%s [arm %s]" % (cons, label), **kw)
